@@ -453,6 +453,9 @@ class Exec:
         intr = INTRINSICS.get(re.sub(r"^core::|^std::", "", name))
         if intr:
             return intr(self, args)
+        for pat, handler in self.extern.items():
+            if re.search(pat, name):
+                return [("true", handler(self, args))]
         short = re.sub(r"::<[^()]*>$", "", name)   # drop a trailing turbofish
         if short in self.funcs:
             return self.run(self.funcs[short], args, pc, depth + 1)
